@@ -183,7 +183,8 @@ class ArrayToDotNodeInfoMapper(CachedMapper[None, None, []]):
     def __init__(self) -> None:
         super().__init__(err_on_collision=False)
         self.node_to_dot: dict[ArrayOrNames, _DotNodeInfo] = {}
-        self.functions: set[FunctionDefinition] = set()
+        # (ordered: the order of discovery decides the numbering of the nodes)
+        self.functions: dict[FunctionDefinition, None] = {}
 
     def get_common_dot_info(self, expr: Array) -> _DotNodeInfo:
         title = type(expr).__name__
@@ -357,7 +358,7 @@ class ArrayToDotNodeInfoMapper(CachedMapper[None, None, []]):
         self.node_to_dot[expr] = info
 
     def map_call(self, expr: Call) -> None:
-        self.functions.add(expr.function)
+        self.functions[expr.function] = None
 
         for bnd in expr.bindings.values():
             self.rec(bnd)
@@ -535,7 +536,7 @@ def _gather_partition_node_information(
 
     for part in partition.parts.values():
         mapper = ArrayToDotNodeInfoMapper()
-        for out_name in part.output_names:
+        for out_name in sorted(part.output_names):
             mapper(partition.name_to_output[out_name])
 
         part_id_func_to_node_info[part.pid, None] = mapper.node_to_dot
@@ -818,7 +819,8 @@ def get_dot_graph_from_partition(partition: DistributedGraphPartition) -> str:
 
         _emit_name_cluster(
                 emitter, part_subgraph_path,
-                {name: partition.name_to_output[name] for name in part.output_names},
+                {name: partition.name_to_output[name]
+                 for name in sorted(part.output_names)},
                 array_to_id, id_gen, "Part outputs")
 
     # }}}
